@@ -515,7 +515,10 @@ def lift_block(blk, log, meta, canary=False):
                     j = i + 1
                     if sig[j].text == 'mut':
                         j += 1
-                    if sig[j].text == a['after_let']:
+                    if 'from_let' in a and sig[j].text == a['from_let']:
+                        start = i
+                        break
+                    if sig[j].text == a.get('after_let'):
                         while not (sig[j].kind == 'p' and sig[j].text == ';'):
                             if sig[j].kind == 'p' and sig[j].text in '([{':
                                 j = sig[j].mate
@@ -524,7 +527,7 @@ def lift_block(blk, log, meta, canary=False):
                         break
                 i += 1
             if start is None:
-                raise LiftError(f"{src.rel}: `let {a['after_let']}` not found in fn `{a['fn']}`")
+                raise LiftError(f"{src.rel}: `let {a.get('after_let') or a.get('from_let')}` not found in fn `{a['fn']}`")
             lo, hi = start, fi.close_idx
         else:
             k = int(a['index'])
@@ -532,6 +535,7 @@ def lift_block(blk, log, meta, canary=False):
                 raise LiftError(f"{src.rel}: fn `{a['fn']}` has no loop {k}")
             lo, hi = loops[k].kw_idx, loops[k].close_idx + 1
         ed = Edits(src, sig[lo].start, sig[hi - 1].end if kind == 'loop' else sig[hi].start)
+        loops = [l for l in loops if lo <= l.kw_idx < hi]   # loop ordinals of a block lift are relative to the block
         header = blk.rest
         if canary or True:
             header = re.sub(r'\bfn\s+(\w+)', lambda m: 'fn ' + (m.group(1) + ('__canary' if canary else '')), header, count=1)
